@@ -25,8 +25,10 @@ ORACLE = r"""
 EXTENDS MatrixFn, Json, IOUtils
 Cases == JsonDeserialize(IOEnv.CASES)
 Spec(c) == [i \in 1..Len(c.spec) |-> <<c.spec[i][1], c.spec[i][2]>>]
+\* the spectrum that is inverted is the one of the path the dispatch actually takes (a 1-element input never reaches a solver)
+PathOf(c) == LET o == InverseRootDispatch(c.d) IN IF o \in Paths THEN o ELSE c.path
 One(c) == CASE c.mode = "root" -> [outcome |-> InverseRootDispatch(c.d),
-                                   reg |-> IF c.haspec THEN Regularised(c.path, Spec(c), <<c.eps[1], c.eps[2]>>, Zero) ELSE <<>>]
+                                   reg |-> IF c.haspec THEN Regularised(PathOf(c), Spec(c), <<c.eps[1], c.eps[2]>>, <<c.rel[1], c.rel[2]>>) ELSE <<>>]
             [] c.mode = "eig"  -> [outcome |-> EigenvectorDispatch(c.d), reg |-> <<>>]
             [] c.mode = "term" -> [outcome |-> IF TerminalOK(c.rec) THEN "ok" ELSE "rejected", reg |-> <<>>]
 ASSUME JsonSerialize(IOEnv.OUT, [i \in 1..Len(Cases) |-> One(Cases[i])])
@@ -44,6 +46,8 @@ def run_mc(ctx, quick):
 
 
 def oracle_eval(cases, tag):
+    for c in cases:
+        c.setdefault("rel", [0, 1])
     out = []
     for i in range(0, len(cases), 2000):
         out += tlc.oracle("MatrixOracle", ORACLE, cases[i:i + 2000], tag=tag)[0]
@@ -196,15 +200,17 @@ def accuracy_cases(rng, n_cases, sizes, dtypes=("float32", "float64")):
         dt = rng.choice(dtypes)
         scale = rng.choice([1e-6, 1.0, 1.0, 1e6])
         eps = rng.choice([(1, 16), (1, 256), (1, 4096)] if dt == "float32" else [(1, 16), (1, 1024), (1, 2 ** 16)])
-        root = rng.choice([1, 2, 4, 6, 8])
+        root = rng.choice([1, 2, 3, 4, 5, 6, 6, 7, 8])       # 2 x tensor order (2, 4, 6, 8) and every other small integer
         mult = 1.0
         rootfrac = Fraction(root)
         if path in ("eigen", "eigen_stab", "higher") and rng.random() < 0.3:
             rootfrac = rng.choice([Fraction(4, 3), Fraction(8, 3), Fraction(20, 11)])
         spec = spectrum_class(rng, n, kind)
-        if path == "diagonal":
-            pass
-        cases.append({"mode": "root", "haspec": True, "path": path, "spec": [list(x) for x in spec], "eps": list(eps), "n": n, "kind": kind,
+        rel = [0, 1]
+        if path == "higher" and rng.random() < 0.5:
+            # relative regularisation rel_epsilon * |A|_inf of the same order as the absolute one: max(., .) is what the spec adds
+            rel = [eps[0] * rng.choice([1, 2, 4]), eps[1] * rng.choice([1, 2])]
+        cases.append({"mode": "root", "haspec": True, "rel": rel, "path": path, "spec": [list(x) for x in spec], "eps": list(eps), "n": n, "kind": kind,
                       "dtype": dt, "scale": scale, "root": [rootfrac.numerator, rootfrac.denominator], "seed": rng.randrange(1 << 30),
                       "d": dict(numel1=(n == 1), ndim2=True, square=True, isdiag=(path == "diagonal"), rootpos=True,
                                 rootint=rootfrac.denominator == 1,
@@ -232,8 +238,14 @@ def run_accuracy_case(c, e):
         return True, []
     if e["outcome"] not in ("scalar", "diagonal", "eigen", "eigen_stab", "newton", "higher"):
         return True, []
+    kw = {}
+    if c.get("rel", [0, 1])[0]:
+        norm = float(torch.linalg.matrix_norm(A, torch.inf))
+        if norm <= 0:
+            return True, []
+        kw["rel_epsilon"] = to_float(c["rel"]) * c["scale"] / norm       # rel_epsilon * |A|_inf = the dyadic value the spec was given (to 1 ulp)
     try:
-        X = matrix_inverse_root(A, root, cfg_of(c["d"]["cfg"]), epsilon=eps, is_diagonal=c["d"]["isdiag"]).to(F64)
+        X = matrix_inverse_root(A, root, cfg_of(c["d"]["cfg"], **kw), epsilon=eps, is_diagonal=c["d"]["isdiag"]).to(F64)
     except ArithmeticError:
         return True, []     # the higher-order solver is allowed to raise (C10: "raises rather than return ...")
     want32, lamr = expected_from_reg(q, e["reg"], c["scale"], float(root))
